@@ -26,7 +26,7 @@
 //
 // mutation classes: rver b:k nil|bump|root, rdrop b:k, radd b:k, wval b:k v, wdrop b:k, wadd b:k v, wperm, args <prog>,
 // method, contract, limit, fee, nofee, evt, evdrop, noreq, same; token side: xroute [j], xamt [j], xdecl, xboth [j], xswap,
-// idrop [j], iswap, iadd, isub [j], inreal [j] (see mutate in exec.go).
+// idrop [j], iswap, iadd, isub [j], inreal [j], ishort [j] (see mutate in exec.go).
 //
 // impl-side oracle (exec.go): (a) the transaction assembled from a successful pre-execution is accepted against the same
 // state, and by the block path; (b) after acceptance exactly the keys of the write set changed, to exactly the declared
@@ -189,6 +189,11 @@ func (g *Gen) xfer() string {
 	case 1:
 		to = 3
 	}
+	if to == 0 && amt >= 1000 {
+		// the change of the initiator's fee inputs may be worth exactly that: an output identical to this payment
+		// (see unlessStillPaid in exec.go)
+		to = 1
+	}
 	st := fmt.Sprintf("xfer %d %d", to, amt)
 	g.xfs = append(g.xfs, st)
 	return st
@@ -299,6 +304,9 @@ func (g *Gen) mutants(slot string) {
 		}
 		if r.Chance(1, 3) {
 			add("isub %d", r.Intn(len(p.I)))
+		}
+		if r.Chance(1, 2) {
+			add("ishort %d", r.Intn(len(p.I)))
 		}
 	}
 	if r.Chance(1, 4) {
@@ -473,7 +481,7 @@ func main() {
 	if n == 0 {
 		n = 500
 		if args.Tier == "thorough" {
-			n = 8000
+			n = 6500
 		}
 	}
 	g := &Gen{r: xvlib.NewRng(args.Seed*1000003 + 909), e: ex, out: out}
